@@ -11,6 +11,7 @@ type isStandardClass interface {
 	namesSuper(name string) bool
 	slotDefMap() map[string]*SlotDef
 	initArgDef(name string) *SlotDef
+	sharedInitArgDefs(name string) []*SlotDef
 	initFormMap() map[string]*SlotDef
 	defaultsMap() map[string]slip.Object
 	precedenceList() []slip.Symbol
